@@ -31,11 +31,13 @@ func (c *verifMemConn) SetWriteDeadline(time.Time) error { return nil }
 
 // VerifLoopy wraps one loopyWriter.
 type VerifLoopy struct {
-	l    *loopyWriter
-	conn *verifMemConn
-	done chan struct{}
-	wqs  map[uint32]*writeQuota
-	pool mem.BufferPool
+	l     *loopyWriter
+	conn  *verifMemConn
+	done  chan struct{}
+	wqs   map[uint32]*writeQuota
+	pool  mem.BufferPool
+	async bool
+	ofc   chan uint32
 }
 
 // VerifNewLoopy builds a loopy writer exactly as http2Client/http2Server do (newFramer with the
@@ -63,6 +65,26 @@ func (v *VerifLoopy) VerifWriteGoAway(last uint32, code uint32) error {
 	return v.l.framer.fr.WriteGoAway(last, http2.ErrCode(code), nil)
 }
 
+// VerifStartRun starts the real loopyWriter.run() goroutine; from then on items are put into the real controlBuffer
+// (VerifHandle* become controlBuf.put) and run() consumes them. The returned channel yields run()'s error when it returns.
+func (v *VerifLoopy) VerifStartRun() <-chan error {
+	v.async = true
+	ch := make(chan error, 1)
+	go func() { ch <- v.l.run() }()
+	return ch
+}
+
+// VerifCloseDone closes the transport's done channel (unblocks controlBuffer.get, as Close of the transport does).
+func (v *VerifLoopy) VerifCloseDone() { close(v.done) }
+
+// dispatch hands one control item to loopy: directly (handle) or through the controlBuffer.
+func (v *VerifLoopy) dispatch(it cbItem) error {
+	if v.async {
+		return v.l.cbuf.put(it)
+	}
+	return v.l.handle(it)
+}
+
 func (v *VerifLoopy) newWQ(id uint32, sz int32) *writeQuota {
 	wq := &writeQuota{}
 	wq.init(sz, v.done)
@@ -71,35 +93,35 @@ func (v *VerifLoopy) newWQ(id uint32, sz int32) *writeQuota {
 }
 
 func (v *VerifLoopy) VerifHandleIncomingWindowUpdate(id, inc uint32) error {
-	return v.l.handle(&incomingWindowUpdate{streamID: id, increment: inc})
+	return v.dispatch(&incomingWindowUpdate{streamID: id, increment: inc})
 }
 func (v *VerifLoopy) VerifHandleOutgoingWindowUpdate(id, inc uint32) error {
-	return v.l.handle(&outgoingWindowUpdate{streamID: id, increment: inc})
+	return v.dispatch(&outgoingWindowUpdate{streamID: id, increment: inc})
 }
 func (v *VerifLoopy) VerifHandleIncomingSettings(ss []http2.Setting) error {
-	return v.l.handle(&incomingSettings{ss: ss})
+	return v.dispatch(&incomingSettings{ss: ss})
 }
 func (v *VerifLoopy) VerifHandleOutgoingSettings(ss []http2.Setting) error {
-	return v.l.handle(&outgoingSettings{ss: ss})
+	return v.dispatch(&outgoingSettings{ss: ss})
 }
 func (v *VerifLoopy) VerifHandleRegisterStream(id uint32, wq int32) error {
-	return v.l.handle(&registerStream{streamID: id, wq: v.newWQ(id, wq)})
+	return v.dispatch(&registerStream{streamID: id, wq: v.newWQ(id, wq)})
 }
 func (v *VerifLoopy) VerifHandleClientHeaders(id uint32, hf []hpack.HeaderField, wq int32, initStream func(uint32) error, onWrite func(), onOrphaned func(error)) error {
-	return v.l.handle(&clientHeaders{streamID: id, hf: hf, initStream: initStream, onWrite: onWrite, wq: v.newWQ(id, wq), onOrphaned: onOrphaned})
+	return v.dispatch(&clientHeaders{streamID: id, hf: hf, initStream: initStream, onWrite: onWrite, wq: v.newWQ(id, wq), onOrphaned: onOrphaned})
 }
 func (v *VerifLoopy) VerifHandleServerHeaders(id uint32, hf []hpack.HeaderField, endStream bool, onWrite func(), rst bool, rstCode uint32, cleanupOnWrite func()) error {
 	sh := &serverHeaders{streamID: id, hf: hf, endStream: endStream, onWrite: onWrite}
 	if endStream {
 		sh.cleanup = &cleanupStream{streamID: id, rst: rst, rstCode: http2.ErrCode(rstCode), onWrite: cleanupOnWrite}
 	}
-	return v.l.handle(sh)
+	return v.dispatch(sh)
 }
 func (v *VerifLoopy) VerifHandleCleanupStream(id uint32, rst bool, rstCode uint32, onWrite func()) error {
-	return v.l.handle(&cleanupStream{streamID: id, rst: rst, rstCode: http2.ErrCode(rstCode), onWrite: onWrite})
+	return v.dispatch(&cleanupStream{streamID: id, rst: rst, rstCode: http2.ErrCode(rstCode), onWrite: onWrite})
 }
 func (v *VerifLoopy) VerifHandleEarlyAbort(id uint32, rst bool, hf []hpack.HeaderField) error {
-	return v.l.handle(&earlyAbortStream{streamID: id, rst: rst, hf: hf})
+	return v.dispatch(&earlyAbortStream{streamID: id, rst: rst, hf: hf})
 }
 
 // VerifHandleData hands loopy a dataFrame whose payload is split over the given chunks (each chunk becomes
@@ -109,29 +131,50 @@ func (v *VerifLoopy) VerifHandleData(id uint32, h []byte, chunks [][]byte, endSt
 	for _, c := range chunks {
 		bs = append(bs, mem.Copy(c, v.pool))
 	}
-	return v.l.handle(&dataFrame{streamID: id, endStream: endStream, h: h, data: bs, onEachWrite: onEachWrite})
+	return v.dispatch(&dataFrame{streamID: id, endStream: endStream, h: h, data: bs, onEachWrite: onEachWrite})
 }
-func (v *VerifLoopy) VerifHandleIncomingGoAway() error { return v.l.handle(&incomingGoAway{}) }
+func (v *VerifLoopy) VerifHandleIncomingGoAway() error { return v.dispatch(&incomingGoAway{}) }
 func (v *VerifLoopy) VerifHandleGoAway(headsUp bool, code uint32, closeConn bool) error {
 	g := &goAway{code: http2.ErrCode(code), headsUp: headsUp}
 	if closeConn {
 		g.closeConn = errors.New("verif: closeConn")
 	}
-	return v.l.handle(g)
+	return v.dispatch(g)
 }
 func (v *VerifLoopy) VerifHandlePing(ack bool, data [8]byte) error {
-	return v.l.handle(&ping{ack: ack, data: data})
+	return v.dispatch(&ping{ack: ack, data: data})
 }
-func (v *VerifLoopy) VerifHandleCloseConnection() error { return v.l.handle(closeConnection{}) }
+func (v *VerifLoopy) VerifHandleCloseConnection() error { return v.dispatch(closeConnection{}) }
 func (v *VerifLoopy) VerifHandleOutFlowControlSizeRequest() (uint32, error) {
 	ch := make(chan uint32, 1)
-	err := v.l.handle(&outFlowControlSizeRequest{resp: ch})
+	err := v.dispatch(&outFlowControlSizeRequest{resp: ch})
+	if v.async {
+		v.ofc = ch
+		return 0, err
+	}
 	select {
 	case q := <-ch:
 		return q, err
 	default:
 		return 0, err
 	}
+}
+
+// VerifOutFlowControlSizeAnswer returns the answer to the last outFlowControlSizeRequest put in async mode (after quiescence).
+func (v *VerifLoopy) VerifOutFlowControlSizeAnswer() (uint32, bool) {
+	select {
+	case q := <-v.ofc:
+		return q, true
+	default:
+		return 0, false
+	}
+}
+
+// VerifTake returns (and clears) everything written to the conn, without flushing.
+func (v *VerifLoopy) VerifTake() []byte {
+	b := append([]byte(nil), v.conn.w.Bytes()...)
+	v.conn.w.Reset()
+	return b
 }
 func (v *VerifLoopy) VerifHandleUnknown() error { return v.l.handle(struct{}{}) }
 
